@@ -845,15 +845,71 @@ def jcase(case):
 _EQ = {}
 
 
-def equipment(name):
+def equipment(name, patch=None):
+    """the shipped equipment library `name`, optionally with generated ROADM varieties merged in and the span power mode
+    switched (patch = {'roadm_types': [library entries], 'power_mode': bool or None})"""
     from pathlib import Path
     import gnpy
     from gnpy.tools.json_io import load_equipments_and_configs
-    if name not in _EQ:
+    key = name + '|' + json.dumps(patch, sort_keys=True) if patch else name
+    if key not in _EQ:
         d = Path(gnpy.__file__).parent / 'example-data'
         fn = {'default': 'eqpt_config.json', 'multiband': 'eqpt_config_multiband.json'}[name]
-        _EQ[name] = load_equipments_and_configs(d / fn, [], [])
-    return _EQ[name]
+        if not patch:
+            _EQ[key] = load_equipments_and_configs(d / fn, [], [])
+        else:
+            import hashlib
+            import tempfile
+            tmp = Path(tempfile.gettempdir()) / ('verif_c01_eq_' + hashlib.sha1(key.encode()).hexdigest()[:16])
+            tmp.mkdir(exist_ok=True)
+            for f in d.iterdir():       # the library refers to side files (advanced amplifier configurations) by name
+                if f.suffix == '.json' and not (tmp / f.name).exists():
+                    try:
+                        (tmp / f.name).symlink_to(f)
+                    except OSError:
+                        pass
+            lib = json.load(open(d / fn))
+            lib['Roadm'] = lib['Roadm'] + copy.deepcopy(patch.get('roadm_types') or [])
+            if patch.get('power_mode') is not None:
+                for sp in lib['Span']:
+                    sp['power_mode'] = patch['power_mode']
+            out = tmp / 'generated_eqpt.json'
+            json.dump(lib, open(out, 'w'))
+            _EQ[key] = load_equipments_and_configs(out, [], [])
+    return _EQ[key]
+
+
+def gen_roadm_type(rng, name):
+    """a ROADM variety with a full impairment profile: express / add / drop blocks, one or two frequency ranges each,
+    non-zero PMD / PDL / in-band crosstalk / max loss, OSNR and noise figure of the amplified blocks"""
+    def ranges():
+        if rng.random() < 0.6:
+            return [(191.3e12, 196.1e12)]
+        cut = rng.choice([193.0e12, 193.7e12, 194.45e12])
+        return [(191.3e12, cut), (cut, 196.1e12)]
+
+    def block(kind):
+        out = []
+        for lo, hi in ranges():
+            b = {'frequency-range': {'lower-frequency': lo, 'upper-frequency': hi},
+                 'roadm-pmd': rng.choice([0, 1e-12, 3e-12]), 'roadm-cd': 0, 'roadm-pdl': rng.choice([0, 0.2, 0.5]),
+                 'roadm-inband-crosstalk': rng.choice([0, 0, 25, 32, 40, -35]),
+                 'roadm-maxloss': round(rng.uniform(4, 18), 1)}
+            if kind != 'express':
+                b.update({'roadm-pmax': 2.5, 'roadm-osnr': rng.choice([33, 37, 41, 45]),
+                          'roadm-noise-figure': rng.choice([15, 19, 23])})
+            if kind == 'drop':
+                b.update({'roadm-minloss': 5.0, 'roadm-typloss': 8.0, 'roadm-pmin': -13.5, 'roadm-ptyp': -12})
+            out.append(b)
+        return out
+    imps = [{'roadm-path-impairments-id': 0, 'roadm-express-path': block('express')},
+            {'roadm-path-impairments-id': 1, 'roadm-add-path': block('add')},
+            {'roadm-path-impairments-id': 2, 'roadm-drop-path': block('drop')}]
+    if rng.random() < 0.5:
+        imps.append({'roadm-path-impairments-id': 3, 'roadm-add-path': block('add')})
+    return {'type_variety': name, 'target_pch_out_db': rng.choice([-20, -18, -22]), 'add_drop_osnr': rng.choice([33, 38]),
+            'pmd': rng.choice([0, 1e-12]), 'pdl': rng.choice([0, 0.3]),
+            'restrictions': {'preamp_variety_list': [], 'booster_variety_list': []}, 'roadm-path-impairments': imps}
 
 
 FIBERS = ['SSMF', 'SSMF', 'SSMF', 'NZDF', 'LOF']
@@ -923,6 +979,7 @@ def gen_path_case(rng, flavour=None, thorough=False):
     flavour = flavour or rng.choice(['mesh', 'mesh', 'line', 'line', 'multiband', 'raman'])
     eq = 'multiband' if flavour == 'multiband' else 'default'
     els, cx = [], []
+    roadm_types = []
     raman_ok = flavour == 'raman'
     both = rng.random() < 0.7
 
@@ -938,7 +995,9 @@ def gen_path_case(rng, flavour=None, thorough=False):
         op = {'gain_target': None, 'tilt_target': rng.choice([0, 0, 0, -1.0, 1.5]), 'out_voa': rng.choice([None, 0, 1.0]),
               'delta_p': None}
         if rng.random() < 0.5:
-            op['gain_target'] = round(rng.uniform(10, 25), 2)
+            # (low, zero and negative gains too: a line amplifier used as a mere repeater / behind a short patch)
+            op['gain_target'] = round(rng.uniform(10, 25), 2) if rng.random() < 0.65 else \
+                rng.choice([-4.0, -3.0, -2.0, -1.0, -0.5, 0.0, 0.5, 1.5, 2.5, 4.0])
             op['delta_p'] = rng.choice([None, 0.0, -1.0, 1.0])
         if rng.random() < 0.25:
             op['in_voa'] = rng.choice([0.5, 1.0, 2.0])
@@ -1018,7 +1077,14 @@ def gen_path_case(rng, flavour=None, thorough=False):
         for x in names:
             ro = {'uid': f'roadm {x}', 'type': 'Roadm', 'params': {}}
             if rng.random() < 0.4:
-                ro['params']['target_pch_out_db'] = rng.choice([-20, -18, -22, -25])
+                # (also egress targets close to the line power: the booster then works at low / zero / negative gain)
+                ro['params']['target_pch_out_db'] = rng.choice([-20, -18, -22, -25, -3.0, -1.0, 0.5, 2.0])
+            if eq == 'default' and rng.random() < 0.5:
+                if rng.random() < 0.3:
+                    ro['type_variety'] = 'detailed_impairments'
+                else:
+                    ro['type_variety'] = f'generated_roadm_{len(roadm_types)}'
+                    roadm_types.append(gen_roadm_type(rng, ro['type_variety']))
             if eq == 'multiband':
                 ro['params']['design_bands'] = [dict(BAND_C), dict(BAND_L)] if both else [dict(BAND_C)]
             els += [{'uid': f'trx {x}', 'type': 'Transceiver'}, ro]
@@ -1027,6 +1093,21 @@ def gen_path_case(rng, flavour=None, thorough=False):
             link(f'roadm {a}', f'roadm {b}', a + b)
             link(f'roadm {b}', f'roadm {a}', b + a)
         src, dst = (f'trx {x}' for x in rng.sample(names, 2))
+        # per-degree bindings: a ROADM variety with a second add profile uses it towards some of its line degrees
+        first_after = {}
+        for a_, b_ in cx:
+            if a_.startswith('roadm ') and not b_.startswith('trx '):
+                first_after.setdefault(a_, []).append(b_)
+        ids = {rt['type_variety']: [i['roadm-path-impairments-id'] for i in rt['roadm-path-impairments']] for rt in roadm_types}
+        for e in els:
+            if e['type'] == 'Roadm' and 3 in ids.get(e.get('type_variety'), []):
+                binds = []
+                for nxt in first_after.get(e['uid'], []):
+                    if rng.random() < 0.6:
+                        deg = nxt if not nxt.startswith('fiber ') else f'Edfa_booster_{e["uid"]}_to_{nxt}'
+                        binds.append({'from_degree': 'trx ' + e['uid'][6:], 'to_degree': deg, 'impairment_id': 3})
+                if binds:
+                    e['params']['per_degree_impairments'] = binds
     topo = {'elements': els, 'connections': [{'from_node': a, 'to_node': b} for a, b in cx]}
     # NLI method first: the GGN methods are slow, they get tiny combs
     method = 'gn_model_analytic'
@@ -1104,7 +1185,9 @@ def gen_path_case(rng, flavour=None, thorough=False):
            'nli_params': {'method': method, 'dispersion_tolerance': 1, 'phase_shift_tolerance': 0.1,
                           'computed_channels': computed, 'computed_number_of_channels': computed_nb}}
     return {'kind': 'path', 'flavour': flavour, 'eq': eq, 'topo': topo, 'src': src, 'dst': dst, 'spectrum': spectrum,
-            'sim': sim, 'power_dbm': rng.choice([None, None, 0, 2, -2, 5]), 'updates': gen_updates(rng)}
+            'sim': sim, 'power_dbm': rng.choice([None, None, 0, 2, -2, 5, 8]), 'updates': gen_updates(rng),
+            'eq_patch': ({'roadm_types': roadm_types, 'power_mode': rng.choice([None, None, False])}
+                         if eq == 'default' and (roadm_types or rng.random() < 0.2) else None)}
 
 
 class Tracer:
@@ -1289,7 +1372,7 @@ def drive_path(case):
     from gnpy.tools.worker_utils import designed_network
     from gnpy.topology.request import compute_constrained_path, propagate
     logging.disable(logging.CRITICAL)
-    eq = equipment(case['eq'])
+    eq = equipment(case['eq'], case.get('eq_patch'))
     saved = {"raman_params": SimParams._shared_dict['raman_params'].to_json(),
              "nli_params": SimParams._shared_dict['nli_params'].to_json()}
     SimParams.set_params(copy.deepcopy(case['sim']))
@@ -2011,7 +2094,10 @@ def run(ctx):
         'translated into per-channel functions over Q, numpy element-wise arithmetic read as the arithmetic of one channel, '
         'db2lin abstract; the constructor (argsort + indexing of every array), pch getter/setter, select_channels, __add__, '
         'demuxed/muxed_spectral_information, the dB views, Transceiver._calc_snr/update_snr and utils.snr_sum are matched '
-        'statement by statement against templates) is trusted')
+        'statement by statement against templates; Multiband_amplifier.__call__ / Edfa.__call__ (templates of pygen_c07), '
+        'Roadm / Edfa (+ noise_profile) / Fiber / RamanFiber .propagate (whole-body templates of pygen_c06 / c04 / c03), '
+        'Fused.propagate, Transceiver.__call__ and the __call__ wrappers are template-matched and the primitives each body '
+        'applies are extracted into g_program_<kind>) is trusted')
     ctx.rule = ('(a) random histories (1-20 operations: attenuation/gain in linear and dB form, scalar and per-channel, '
                 'add_ase, add_nli incl. NLI = channel power, demux, split+merge, sum with a second spectrum; 1-30 channels of '
                 'mixed slot width / baud rate / power, -30..+10 dBm) on a real SpectralInformation vs the model after every '
